@@ -50,7 +50,40 @@ class Ctx:
     def std(self):
         return self.config != "alloc"
 
+    def new_capture_values(self, body):
+        """A closure that captures a variable the reference tree's closure did not capture (a value the enclosing function now computes once and hands in,
+        `let layout = header_meta(..); f(..).and_then(|m| { .. layout .. })`): that capture is not a free symbol - it is what the enclosing function
+        computed.  -> {capture name: term in the enclosing function}"""
+        import sym as _sym
+        ref = _sym._NAMES["upvars"].get(body.path)
+        if body.kind != "Closure" or ref is None or not body.upvars:
+            return {}
+        new = [u for u in body.upvars if u["name"] not in set(ref.values())]
+        if not new or len(new) == len(body.upvars):
+            return {}
+        parent = self.facts.body(body.parent_fn) if body.parent_fn else None
+        if parent is None:
+            return {}
+        ev, res = self.eval(parent, no_inline=(r"\{closure",))
+        caps = getattr(ev, "closure_caps", {}).get(body.path)
+        if not caps:
+            return {}
+        out = {}
+        for u in new:
+            fi = [p_ for p_ in u["place"]["proj"] if isinstance(p_, dict) and "f" in p_]
+            if not fi or fi[0]["i"] >= len(caps):
+                continue
+            v = caps[fi[0]["i"]]
+            if tag(v) in ("undef", "ref"):
+                continue
+            out[u["name"]] = v
+        return out
+
     def eval(self, body, **policy):
+        if body.kind == "Closure" and "upvar_values" not in policy:
+            uv = self.new_capture_values(body)
+            if uv:
+                policy = dict(policy, upvar_values=tuple(sorted(uv.items(), key=repr)))
         key = (body.path, repr(sorted(policy.items())))
         r = self._cache.get(key)
         if r is None:
